@@ -90,6 +90,18 @@ Info(n) == IF doc[n].k = "open"
            THEN [kept |-> Kept(n), ans |-> [j \\in 1..Len(doc[n].as) |-> AttrNs(n, doc[n].as[j])],
                  keepmask |-> [j \\in 1..Len(doc[n].as) |-> ~AttrDropped(n, doc[n].as[j])]]
            ELSE [kept |-> [tag |-> TRUE, ds |-> {}, as |-> <<>>], ans |-> <<>>, keepmask |-> <<>>]
+\\* simulation: one randomly drawn element per step instead of the whole successor set (each step is an AddOpen step)
+Pick(S) == RandomElement(S)
+RndOpen ==
+  /\\ ~fin /\\ Len(doc) < MaxItems /\\ depth < MaxDepth
+  /\\ \\E ds \\in {IF Pick(BOOLEAN) THEN {} ELSE {Pick(Decl)}}, a1 \\in {Pick(Attr \\cup {[f |-> "none"]})},
+         a2 \\in {Pick(Attr \\cup {[f |-> "none"]})}, sc \\in {Pick(BOOLEAN)}, ep \\in {Pick(ElemP)}, dfirst \\in {Pick(BOOLEAN)} :
+        /\\ doc' = Append(doc, [k |-> "open", ds |-> ds,
+                                as |-> SelectSeq(<<a1, IF a1.f = "none" THEN a1 ELSE a2>>, LAMBDA a : a.f # "none"),
+                                ep |-> ep, dfirst |-> dfirst, sc |-> sc])
+        /\\ depth' = IF sc THEN depth ELSE depth + 1
+  /\\ UNCHANGED fin
+SimSpec == Init /\\ [][RndOpen \\/ AddClose \\/ Finish]_vars
 Emit == (fin /\\ WellBound) => PrintT(ToJson([doc |-> doc, info |-> [n \\in 1..Len(doc) |-> Info(n)]]))
 ====
 """
@@ -123,10 +135,10 @@ def ns_part(ctx, quick):
         try:
             open(os.path.join(wd, "MCNs.tla"), "w").write(MC)
             open(os.path.join(wd, "MCNs.cfg"), "w").write(
-                "SPECIFICATION Spec\nCONSTANTS\n MaxItems = %d\n MaxDepth = 2\n DataOption = %s\nINVARIANT NoLeak\nINVARIANT ForeignPreserved\nINVARIANT Emit\n"
-                % (4, "TRUE" if data_opt else "FALSE"))
+                "SPECIFICATION %s\nCONSTANTS\n MaxItems = %d\n MaxDepth = 2\n DataOption = %s\nINVARIANT NoLeak\nINVARIANT ForeignPreserved\nINVARIANT Emit\n"
+                % ("SimSpec" if quick else "Spec", 5 if quick else 4, "TRUE" if data_opt else "FALSE"))
             if quick:
-                r = run_tlc("MCNs", "MCNs.cfg", wd, workers=1, timeout=1800, simulate="num=1200", depth=8, seed=ctx.seed, java_opts=["-Xmx6g"])
+                r = run_tlc("MCNs", "MCNs.cfg", wd, workers=1, timeout=1800, simulate="num=40000", depth=10, seed=ctx.seed, java_opts=["-Xmx6g"])
             else:
                 r = run_tlc("MCNs", "MCNs.cfg", wd, workers=1, timeout=7200, java_opts=["-Xmx8g"])
         finally:
